@@ -6,6 +6,12 @@ props=[json.loads(l) for l in open('/verif/properties.jsonl')]
 HOOK_COMMITS=["dc2fd90"]
 # id -> (technique, level text, level note)
 DONE={
+ "C05":("runtime monitoring: recorded sender/receiver call histories judged by a content-equality oracle and a tamper oracle (independent spec MIC over the received bytes with the receiver's parameters), incl. a receiver re-using its PHYPayload value",
+        "held on the executions observed (thorough: every bit of every generated frame is flipped); known finding: MHDR RFU bits",
+        "trusted: crypto/aes, harness CMAC/keystream; key usage per LoRaWAN 1.1"),
+ "C10":("runtime monitoring + Go race detector: aliasing/guard-byte/stale-state memory-effect monitors on every decoder type, band-instance isolation histories, and a -race workload whose registry operations are recorded and checked for linearizability with porcupine",
+        "held on the executions observed: guard sweep complete for lengths 0..64 x alignments 0..15; concurrent part reports the histories, overlapping operation pairs and race-detector runs actually observed (not all interleavings)",
+        "trusted: Go race detector (reports only races that occur in the observed executions), porcupine v1.3.0"),
  "C08":("runtime monitoring: canonicality oracle (decode accepted => re-encode succeeds and is byte-identical => re-decode equal) over uniform, structure-aware mutated and guard-boundary byte strings; per-MType acceptance thresholds",
         "held on the executions observed (>= 300 accepted inputs per MType or the run is inconclusive)",
         "trusted: none beyond the harness generators; frames with MHDR RFU bits set are outside the property"),
